@@ -36,4 +36,10 @@ def rp66StopIndexSlice (start stop step : Option Int) (n : Nat) : Except Err Int
   | .error e, _ => .error e
   | _, .error e => .error e
 
+/-- the same for a `Sample(s)`: `indices[-1]`, else `Sample.last()` (only reachable for `n = 0`, which the caller asserts away) -/
+def rp66StopIndexSample (n s : Nat) : Int :=
+  match (sampleIndices n s).getLast? with
+  | some i => (i : Int)
+  | none => sampleLast n s
+
 end TD.C11
